@@ -223,6 +223,9 @@ def build(groups, base, only=None):
          '#define VEC_CAP 64', '#define VEC_LOCAL 1', 'Sc ghost_vec[VEC_CAP + 1]; int ghost_vec_size; int ghost_k;',
          '#define VEC_SIZE(h) ghost_vec_size', '#define VEC_AT(h, i) ghost_vec[i]',
          'vhandle __CPROVER_uninterpreted_vec_from(vhandle, int);', '#define VEC_FROM(a, n) __CPROVER_uninterpreted_vec_from(a, n)',
+         '/* a static std::vector<double>: its length on entry is arbitrary (left by an earlier call); copying n elements into it gives the vector value (a, n) only when its length is n */',
+         'int SVEC_LEN; vhandle __CPROVER_uninterpreted_vec_other(int, vhandle, int);', '#define VEC_STATIC (__CPROVER_assume(SVEC_LEN >= 0), 2)',
+         '#define VEC_COPYIN(len, a, n) (__CPROVER_assert((n) <= (len), "std::copy stays inside the destination vector"), (len) == (n) ? VEC_FROM(a, n) : __CPROVER_uninterpreted_vec_other(len, a, n))',
          'vhandle ghost_bufdst, ghost_bufsrc; int ghost_bufn;', 'int __CPROVER_uninterpreted_strlen(vhandle);', '#define STRLEN(s) __CPROVER_uninterpreted_strlen(s)',
          '/* strcpy copies strlen+1 bytes (terminator included); strncpy copies exactly n bytes */',
          '#define BUF_COPY(dst, src) (ghost_bufdst = (dst), ghost_bufsrc = (src), ghost_bufn = STRLEN(src) + 1)',
